@@ -328,3 +328,72 @@ def state_from_seed(n, sseed):
     rs = np.random.RandomState(sseed % (2 ** 32))
     v = rs.normal(size=2 ** n) + 1j * rs.normal(size=2 ** n)
     return v / np.linalg.norm(v)
+
+
+# ---------------------------------------------------------------- symbolic parameters
+
+PLAIN_NAMES = ["a", "b", "theta", "phi_1", "w12", "alpha_10", "x", "y"]
+SHADOW_NAMES = ["S", "I", "E", "N", "O", "Q", "pi", "beta", "gamma", "zeta", "lamda",
+                "re", "im", "Symbol", "oo", "nan"]
+INDEX_BASES = ["p", "v", "th"]
+EXPR_FUNCS = ["sin", "cos", "exp"]
+
+
+def symbol_atoms(shadow=True, indexed=True, names=None):
+    opts = [st.sampled_from(names or PLAIN_NAMES).map(lambda n: ["sym", n])]
+    if shadow and not names:
+        opts.append(st.sampled_from(SHADOW_NAMES).map(lambda n: ["sym", n]))
+    if indexed and not names:
+        opts.append(st.builds(lambda b, i: ["idx", b, i], st.sampled_from(INDEX_BASES),
+                              st.integers(0, 12)))
+    return st.one_of(*opts)
+
+
+def number_atoms():
+    return st.one_of(
+        st.integers(-3, 3).filter(lambda k: k != 0).map(lambda k: ["int", k]),
+        st.sampled_from([[1, 3], [-2, 3], [1, 2], [5, 7]]).map(lambda r: ["rat"] + r),
+        st.sampled_from([0.25, 1.37, -0.1, 0.5, 3.5, 2.0]).map(lambda x: ["flt", x]),
+        st.floats(0.01, 9.0, allow_nan=False).map(lambda x: ["flt", x]),
+    )
+
+
+def expr_specs(depth=2, **sym_kw):
+    """Symbolic expression specs that always mention at least one symbol."""
+    sym = symbol_atoms(**sym_kw)
+
+    def extend(children):
+        return st.one_of(
+            st.builds(lambda a, b: ["+", a, b], children, children),
+            st.builds(lambda a, b: ["*", a, b], children, children),
+            st.builds(lambda a, k: ["*", k, a], children, number_atoms()),
+            st.builds(lambda a, k: ["-", a, k], children, number_atoms()),
+            st.builds(lambda a, k: ["/", a, k], children, number_atoms()),
+            st.builds(lambda f, a: ["fn", f, a], st.sampled_from(EXPR_FUNCS), children),
+            st.builds(lambda a: ["neg", a], children),
+        )
+
+    return st.recursive(sym, extend, max_leaves=depth * 2 + 1)
+
+
+def python_numbers():
+    return st.one_of(
+        st.floats(-7, 7, allow_nan=False),
+        st.integers(-3, 3),
+        st.sampled_from([0.30000000000000004, 1e-20, 1e22, -0.1, 0.1, 1 / 3, -2.5e-7, 123456.789]),
+        st.floats(allow_nan=False, allow_infinity=False, width=64).filter(lambda x: x == 0 or 1e-300 < abs(x) < 1e300),
+    )
+
+
+def is_symbolic(p):
+    return isinstance(p, list)
+
+
+def spec_has_symbols(gspec):
+    return any(is_symbolic(p) for p in gspec.get("p", []))
+
+
+def assignment_for(symbols, vseed):
+    """Deterministic numeric assignment for a collection of sympy symbols."""
+    rs = np.random.RandomState(vseed % (2 ** 32))
+    return {s: float(rs.uniform(-2, 2)) for s in sorted(symbols, key=str)}
